@@ -65,8 +65,11 @@ def _cell(rng):
     return Cell().sample(rng)
 
 
-def _U(rng):
-    return np.array(random_rotation(rng))
+def _U(rng, nohalf=False):
+    while True:
+        U = np.array(random_rotation(rng))
+        if not nohalf or 1 + np.trace(U) > 1e-3:      # u_to_rod's domain excludes half turns (C03), where 1/(1+tr U) amplifies round-off
+            return U
 
 
 def _g(rng, tth):
@@ -97,12 +100,12 @@ def cases():
     C['form_omega_mat_general'] = lambda r, t, l: (lambda a: (t.form_omega_mat_general(*a), l.form_omega_mat_general(*a)))([r.uniform(-3, 3) for _ in range(3)])
     C['quart_to_omega'] = lambda r, t, l: (lambda a: (t.quart_to_omega(*a), l.quart_to_omega(*a)))([r.uniform(-360, 360), r.uniform(-.5, .5), r.uniform(-.5, .5)])
     C['rod_to_u'] = lambda r, t, l: (lambda v: (t.rod_to_u(v), l.rod_to_u(v)))([r.uniform(-3, 3) for _ in range(3)])
-    C['u_to_rod'] = lambda r, t, l: (lambda U: (t.u_to_rod(U), l.u_to_rod(U)))(_U(r))
+    C['u_to_rod'] = lambda r, t, l: (lambda U: (t.u_to_rod(U), l.u_to_rod(U)))(_U(r, True))
     C['u_to_euler'] = lambda r, t, l: (lambda U: (t.u_to_euler(U), l.u_to_euler(U)))(_U(r))
     C['u_to_ubi'] = lambda r, t, l: (lambda U, c: (t.u_to_ubi(U, c), l.u_to_ubi(U, c)))(_U(r), _cell(r))
     C['ubi_to_cell'] = lambda r, t, l: (lambda ubi: (t.ubi_to_cell(ubi), l.ubi_to_cell(ubi)))(l.u_to_ubi(_U(r), _cell(r)))
     C['ubi_to_u'] = lambda r, t, l: (lambda ubi: (t.ubi_to_u(ubi), l.ubi_to_u(ubi)))(l.u_to_ubi(_U(r), _cell(r)))
-    C['ubi_to_rod'] = lambda r, t, l: (lambda ubi: (t.ubi_to_rod(ubi), l.ubi_to_rod(ubi)))(l.u_to_ubi(_U(r), _cell(r)))
+    C['ubi_to_rod'] = lambda r, t, l: (lambda ubi: (t.ubi_to_rod(ubi), l.ubi_to_rod(ubi)))(l.u_to_ubi(_U(r, True), _cell(r)))
 
     def ubi_to_u_b(r, t, l):
         ubi = l.u_to_ubi(_U(r), _cell(r))
@@ -163,11 +166,17 @@ def cases():
         def f(r, t, l):
             from pyvc import sgtables
             tabs = sgtables.tables()
-            name, setting, o = tabs[r.randrange(len(tabs))]
-            h = [r.randint(-6, 6) for _ in range(3)]
+            i = getattr(r, 'sample_index', None)
+            name, setting, o = tabs[r.randrange(len(tabs)) if i is None else i % len(tabs)]      # cycles through every table
+            hs = []
+            for _ in range(40):
+                a, b, c = (r.randint(-6, 6) for _ in range(3))
+                hs.append(r.choice([[a, b, c], [a, b, b], [a, a, c], [a, b, a], [a, 0, c], [0, b, c], [a, b, 0], [a, a, a], [0, 0, c],
+                                    [a, 0, 0], [0, b, 0], [a, -a, c], [a, b, -b], [a, a, -2 * a]]))
             if nm == 'sysabs':
-                return (t.sysabs(h, o.syscond, o.crystal_system, o.cell_choice), l.sysabs(h, o.syscond, o.crystal_system, o.cell_choice))
-            return (t.sysabs_unique(h, o.syscond), l.sysabs_unique(h, o.syscond))
+                return ([t.sysabs(h, o.syscond, o.crystal_system, o.cell_choice) for h in hs],
+                        [l.sysabs(h, o.syscond, o.crystal_system, o.cell_choice) for h in hs])
+            return ([t.sysabs_unique(h, o.syscond) for h in hs], [l.sysabs_unique(h, o.syscond) for h in hs])
         return f
     C['sysabs'] = sysabs('sysabs')
     C['sysabs_unique'] = sysabs('sysabs_unique')
@@ -217,7 +226,9 @@ class PairsUnit(Unit):
         common = sorted(set(src.functions('tools')) & set(src.functions('laue')))
         C = cases()
         rng = random.Random(seed)
-        n = 20 if tier == 'quick' else 400
+        n = 40 if tier == 'quick' else 400
+        ft, fl = src.functions('tools'), src.functions('laue')
+        differs = {f for f in common if normalised_dump(ft[f]) != normalised_dump(fl[f])}
         fails = []
         total = 0
         missing = [f for f in common if f not in C]
@@ -225,7 +236,10 @@ class PairsUnit(Unit):
             if f not in C:
                 continue
             slow = f.startswith('genhkl') or f == 'reduce_cell'
-            for _ in range(max(3, n // 6) if slow else n):
+            # a pair whose two texts differ has nothing but this comparison (and possibly a K contract) behind it: sample it harder
+            boost = 15 if f in differs else 1
+            for si in range((max(3, n // 6) if slow else n) * boost):
+                rng.sample_index = si
                 try:
                     a, b = C[f](rng, t, l)
                 except Exception as e:
